@@ -40,6 +40,21 @@ CHECKS['C16'] = dict(
               'by cvc5/z3',
     thorough=True)
 
+CHECKS['C10'] = dict(
+    category='proof',
+    text='The transition table equals the specification table (finite '
+         'obligation, exhaustive); _read_header is verified to return only '
+         'ids of the valid set and to raise DiffXParseError otherwise; the '
+         'main loop of iter_sections carries the inductive invariant '
+         'valid_sections == MAY_FOLLOW[last yielded id], so the statement '
+         'holds for id sequences of any length. A bounded enumeration of id '
+         'sequences through the real reader is the labelled stand-in.',
+    design_ref='5/C10',
+    technique='contract-based deductive verification: loop invariant over '
+              'ghost state updated at each yield, VCs from the real AST, '
+              'z3/cvc5; finite table obligation by evaluation',
+    thorough=True)
+
 NOT_YET = 'check not built yet (work in progress; see DESIGN.md section 5)'
 NA = {}
 
